@@ -69,6 +69,16 @@ pub trait World: Send + Sync {
     fn pool_threads(&self) -> usize {
         1
     }
+    /// `rayon::spawn`: the job runs at some later point on a pool thread. The default runs it at
+    /// once.
+    fn spawn_detached(&self, job: Box<dyn FnOnce() + Send + 'static>) {
+        job()
+    }
+    /// One `eprintln!`/`eprint!` may fail like any write; std panics in that case.
+    fn stderr_line_checked(&self, text: &str) -> io::Result<()> {
+        self.stderr_line(text);
+        Ok(())
+    }
 }
 
 static WORLD: OnceLock<Box<dyn World>> = OnceLock::new();
@@ -98,7 +108,9 @@ pub fn stdout_print(args: fmt::Arguments) {
 }
 
 pub fn stderr_line(args: fmt::Arguments) {
-    world().stderr_line(&args.to_string());
+    if let Err(e) = world().stderr_line_checked(&args.to_string()) {
+        panic!("failed printing to stderr: {e}");
+    }
 }
 
 // region: std::fs
@@ -1186,6 +1198,10 @@ pub mod shadow {
     pub mod rayon {
         pub fn current_num_threads() -> usize {
             crate::verif_seam::world().pool_threads().max(1)
+        }
+        /// `rayon::spawn`: fire-and-forget job on the pool.
+        pub fn spawn<F: FnOnce() + Send + 'static>(job: F) {
+            crate::verif_seam::world().spawn_detached(Box::new(job))
         }
         /// `rayon::join`: `b` may run on another pool thread (if one steals it) or on the caller
         /// after `a`; the world decides, as for any two-item fan-out.
